@@ -251,7 +251,7 @@ func (c *Chip) caAgree(sel *caSelection, pkIFD []byte, respData []byte) result {
 			if err != nil {
 				panic(err)
 			}
-			c.sm = sess
+			c.setSM(sess)
 		}
 		if genuine {
 			c.truth.CaCompleted = true
